@@ -493,16 +493,40 @@ def rl_population(names):
     return ops
 
 
+# RouterListModel.rl_discriminating: (sysName, sysDesc, peers up, EoR capable, dumping, soft, hard); every two judged sort keys order
+# some pair of these routers differently (C12_router_list_keys_told_apart), so a key that sorts on the wrong metric shows
+RL_DISCRIMINATING = [("b", "y", 3, 1, 1, 0, 2), ("a", "z", 2, 2, 2, 1, 0), ("c", "x", 1, 0, 0, 2, 1), ("d", "w", 4, 3, 1, 0, 0),
+                     ("e", "v", 5, 4, 2, 3, 3), None, ("f", "u", 1, 1, 0, 1, 1)]
+
+
+def rl_router(k, spec):
+    if spec is None:
+        return ["N"]
+    name, desc, up, eor, dump, soft, hard = spec
+    ops = ["R %s %s" % (name, desc)]
+    for j in range(up):
+        ops.append("U %d %d %d" % (k, RL_PEERS[j], 1 if j < eor else 0))
+    for j in range(dump):
+        ops.append("A %d %d" % (k, RL_PEERS[j]))
+    return ops + ["S %d" % k] * soft + ["H %d" % k] * hard
+
+
 def corpus_rl():
     names = list(RL_STATES)
     pops = [[]] + [[n] for n in names] + [names, ["initiating", "mixed", "all-dumping"], ["mixed", "mixed", "no-peers"]]
-    return [";".join(rl_population(p) + rl_all_requests()) for p in pops]
+    disc = [op for k, spec in enumerate(RL_DISCRIMINATING) for op in rl_router(k, spec)]
+    return [";".join(rl_population(p) + rl_all_requests()) for p in pops] + [";".join(disc + rl_all_requests())]
 
 
 def gen_rl_case(rng):
     ops = []
     n = rng.weighted([(0, 5), (1, 35), (2, 30), (3, 20), (5, 10)])
-    for k in range(n):
+    disc = rng.chance(20)
+    if disc:
+        n = len(RL_DISCRIMINATING)
+        for k, spec in enumerate(RL_DISCRIMINATING):
+            ops += rl_router(k, spec)
+    for k in range(0 if disc else n):
         if rng.chance(30):
             ops += RL_STATES[rng.choice(list(RL_STATES))](k)
             continue
@@ -512,7 +536,7 @@ def gen_rl_case(rng):
                 continue
             ops.append("I %d" % k)
         else:
-            ops.append("R")
+            ops.append("R %s %s" % (rng.choice(["a", "b", "ab", "B", "r1", "r10", "r2", "zz", "0"]), rng.choice(["d", "x", "y", "D1", "d0", "z9"])) if rng.chance(80) else "R")
         peers = {}
         for _ in range(rng.weighted([(0, 20), (1, 15), (2, 15), (4, 20), (8, 20), (14, 10)])):
             what = rng.weighted([("U", 40), ("A", 25), ("E", 15), ("D", 12), ("S", 4), ("H", 4)])
@@ -566,6 +590,10 @@ def classify_rl(case, out):
             ks.add("answer:" + t)
         elif t.startswith("rows="):
             ks.add("answer:200")
+        elif t[0] == "c" and "=" in t and t[1:2].isdigit():
+            vs = t.split("=", 1)[1].split(",")
+            if len(set(vs)) > 1:
+                ks.add("order-judged:" + ("desc" if vs != sorted(vs, key=lambda x: (0, int(x)) if x.isdigit() else (1, x)) else "asc"))
         elif "=" in t and t[0] == "r":
             v = t.split("=", 1)[1]
             if v == "-":
